@@ -56,6 +56,9 @@ CLAIMED = {
  "C14": ("intra-procedural taint analysis of the string runtime (evaluated data must not reach the scanned or parsed text), dominance of the interpolation by the AllowEscapes test, slice/index obligations discharged by dominating facts",
          "Decides non-interference on the string runtime's source: nothing computed from an evaluation result or error flows into the text searched for markers or handed to the parser (so data cannot become code and the literal is consumed monotonically); "
          "interpolation is control dependent on AllowEscapes; every index/slice expression of the marker arithmetic is proven in bounds by dominating conditions. Escape handling and the marker texts are value dependent and not decided.", "3/C14"),
+ "C07": ("path-sensitive abstract interpretation (errpath) of every parser function returning (*ASTNode, error) under an assume-guarantee contract; typestate/who-may-receive analysis of the token channel; must-pass-through rules on the lexer",
+         "Decides on every path of the parser's source: err == nil ⇒ non-nil node and only non-nil children appended (21+ functions, callee contracts as correlations); exactly one of (tree, error) at the API; the token channel is always drained (deferred drain registered before any return, receives only in the buffer and the owner); "
+         "the lexer always closes the channel and stops only after an error token or at end of input. Termination for every byte string and per-kind child kinds beyond the shape table are not decided.", "3/C07"),
 }
 
 NOT_YET = "check not built yet in this session (see DESIGN.md section 3 for the planned static rule)"
